@@ -63,7 +63,7 @@ impl TraitHandlerMultiple for IntoEnumHandler {
                 let mut arms_token_stream = proc_macro2::TokenStream::new();
 
                 type Variants<'a> =
-                    Vec<(&'a Ident, bool, usize, Ident, &'a Type, Option<&'a Path>)>;
+                    Vec<(&'a Ident, Option<&'a Ident>, usize, Ident, &'a Type, Option<&'a Path>)>;
 
                 let mut variants: Variants = Vec::new();
 
@@ -136,19 +136,29 @@ impl TraitHandlerMultiple for IntoEnumHandler {
                         }
                     };
 
-                    let (field_name, is_tuple): (Ident, bool) = match field.ident.as_ref() {
-                        Some(ident) => (ident.clone(), false),
-                        None => (format_ident!("_{}", index), true),
+                    // the field is bound to a name of its own, so that a custom method called like the field is still reachable
+                    let field_name_real = field.ident.as_ref();
+
+                    let field_name = match field_name_real {
+                        Some(ident) => format_ident!("v_{}", ident),
+                        None => format_ident!("_{}", index),
                     };
 
-                    variants.push((&variant.ident, is_tuple, index, field_name, &field.ty, method));
+                    variants.push((
+                        &variant.ident,
+                        field_name_real,
+                        index,
+                        field_name,
+                        &field.ty,
+                        method,
+                    ));
                 }
 
                 if variants.is_empty() {
                     return Err(super::panic::no_into_field(&target_ty));
                 }
 
-                for (variant_ident, is_tuple, index, field_name, ty, method) in variants {
+                for (variant_ident, field_name_real, index, field_name, ty, method) in variants {
                     let mut pattern_token_stream = proc_macro2::TokenStream::new();
                     let mut body_token_stream = proc_macro2::TokenStream::new();
 
@@ -167,7 +177,7 @@ impl TraitHandlerMultiple for IntoEnumHandler {
                         }
                     }
 
-                    if is_tuple {
+                    if field_name_real.is_none() {
                         for _ in 0..index {
                             pattern_token_stream.extend(quote!(_,));
                         }
@@ -178,7 +188,7 @@ impl TraitHandlerMultiple for IntoEnumHandler {
                             quote!( Self::#variant_ident ( #pattern_token_stream ) => #body_token_stream, ),
                         );
                     } else {
-                        pattern_token_stream.extend(quote!( #field_name, .. ));
+                        pattern_token_stream.extend(quote!( #field_name_real: #field_name, .. ));
 
                         arms_token_stream.extend(
                             quote!( Self::#variant_ident { #pattern_token_stream } => #body_token_stream, ),
